@@ -612,8 +612,73 @@ def moved_case(item):
     return res
 
 
+def latedir_case(item):
+    """The target's directory does not exist yet (the rule creates it with mkdir -p) and is named through a symbolic link to
+    its parent (link -> real): link/new/x.t and real/new/x.t are one target - one record, one lock, one build - before the
+    directory exists as well as afterwards."""
+    _, pair, mode, j, seed = item
+    pj = scen.Project({}, 'c15l')
+    top = os.path.realpath(pj.top)
+    anoms = []
+    obs = dict(command_cases=1, commands=0)
+    try:
+        os.makedirs(os.path.join(top, 'real'))
+        os.symlink('real', os.path.join(top, 'link'))
+        common.write_file(os.path.join(top, 'src'), 'v0\n')
+        common.write_file(os.path.join(top, 'default.t.do'), 'mkdir -p "$(dirname "$3")"\n' + DO % 3 + 'sleep 0.3\n')
+        env_extra = {'RV_TOP': top}
+        sp = [('through-link', 'link/new/x.t'), ('real-name', 'real/new/x.t'), ('absolute-through-link', posixpath.join(top, 'link/new/x.t')),
+              ('absolute-real-name', posixpath.join(top, 'real/new/x.t')), ('dot-slash-link', './link/new/x.t'), ('link-detour', 'link/../link/new/x.t')]
+        a, b = sp[pair[0] % len(sp)], sp[pair[1] % len(sp)]
+
+        def note(r, argv):
+            obs['commands'] += 1
+            for x in scen.crash_anoms(r, pj.logs_text(), 'c15'):
+                if x['cls'] == 'timeout':
+                    raise TimeoutError()
+                anoms.append(dict(key='%s:late-directory' % x['cls'], what='%s -> %s' % (argv, x['what'][:300])))
+        if mode == 'one-line':
+            argv = ['redo-ifchange', a[1], b[1]]
+            r, _ = pj.run(argv, cwd=top, slots=(j if j > 1 else None), extra=env_extra)
+            note(r, argv)
+            rcs = [r.rc]
+        elif mode == 'two-commands':
+            rcs = []
+            for s_ in (a, b):
+                r, _ = pj.run(['redo-ifchange', s_[1]], cwd=top, extra=env_extra)
+                note(r, s_[1])
+                rcs.append(r.rc)
+        else:   # two invocations at the same time, one spelling each
+            res = pj.run_many([dict(argv=['redo-ifchange', a[1]], cwd=top, extra=env_extra), dict(argv=['redo-ifchange', b[1]], cwd=top, delay=0.1, extra=env_extra)], timeout=60)
+            for r in res:
+                note(r, 'concurrent')
+            rcs = [r.rc for r in res]
+        recs = parse_trace(pj.trace_text())
+        n = sum(executed(recs).values())
+        if any(rcs) and not anoms:
+            anoms.append(dict(key='nonzero:late-directory', what='%s / %s (%s): exit %s' % (a[1], b[1], mode, rcs)))
+        elif n != 1 and not anoms:
+            anoms.append(dict(key='builds-not-one:late-directory', what='%d executions for %s and %s (%s): one file whose directory did not exist yet, named through a symlinked parent'
+                              % (n, a[0], b[0], mode)))
+        if not anoms and os.path.exists(os.path.join(top, '.redo', 'db.sqlite3')):
+            hit, names = rows_for(top, 'real/new/x.t')
+            obs['files_rows_seen'] = len(names)
+            if len(hit) != 1:
+                anoms.append(dict(key='records-not-one:late-directory', what='%d Files rows denote real/new/x.t: %s (spellings %s, %s; %s)' % (len(hit), hit, a[0], b[0], mode)))
+    except TimeoutError:
+        return dict(verdict='inconclusive', why='watchdog without stuck witness', sample=dict(item=list(item)))
+    finally:
+        pj.close()
+    res = dict(verdict='violated' if anoms else 'held', nontrivial=True, shape=common.shash(list(item)),
+               sample=dict(kind='late-directory', spellings=[a[0], b[0]], mode=mode, j=j), obs=obs, sets=dict(spelling_kinds=['late:' + a[0], 'late:' + b[0]]))
+    if anoms:
+        res['violations'] = anoms[:3]
+        res['replay'] = dict(kind='command', item=list(item))
+    return res
+
+
 def dispatch(item):
-    return {'norm': direct_norm, 'rand': direct_random, 'rel': direct_rel, 'cmd': cmd_case, 'oob': oob_case, 'moved': moved_case}[item[0]](item)
+    return {'norm': direct_norm, 'rand': direct_random, 'rel': direct_rel, 'cmd': cmd_case, 'oob': oob_case, 'moved': moved_case, 'late': latedir_case}[item[0]](item)
 
 
 RULE = ('layer A (direct calls through native/harness): normpath on every byte string over {a,b,.,/} up to length 7 (quick) / 8 (thorough) and over '
@@ -624,7 +689,7 @@ RULE = ('layer A (direct calls through native/harness): normpath on every byte s
         'realdirpath keeps the final component and canonicalises the directory part. Layer B (commands): one file, 8-12 spellings (relative, '
         'absolute, ./, //, dir/../, through two symlinked directories, symlink-then-..) from 4 working directories; two or three spellings on '
         'one command line (redo and redo-ifchange, -j1 and -j4; also while another invocation holds the lock of the target), in consecutive commands, and as a dependency declared by a consumer: exactly '
-        'one script execution, exit 0, no abort, exactly one Files row, named canonically; the consumer is rebuilt when the real file changes; out-of-band hand-over: a consumer whose script runs outside its own directory (ancestor / parent default rule, script that changes directory) asks through a spelling for a target that is only maybe out of date (above a checksummed target whose input changed, checksum kept or not): executions, bytes, one canonical Files row each, no stray rows; a directory with recorded targets is renamed and a symbolic link takes its old name (lib -> lib-v2): pairs of spellings through the link / the new name / absolute / from inside still are one target (one build per change, whichever asks first). '
+        'one script execution, exit 0, no abort, exactly one Files row, named canonically; the consumer is rebuilt when the real file changes; out-of-band hand-over: a consumer whose script runs outside its own directory (ancestor / parent default rule, script that changes directory) asks through a spelling for a target that is only maybe out of date (above a checksummed target whose input changed, checksum kept or not): executions, bytes, one canonical Files row each, no stray rows; a directory with recorded targets is renamed and a symbolic link takes its old name (lib -> lib-v2): pairs of spellings through the link / the new name / absolute / from inside still are one target (one build per change, whichever asks first); a target whose directory does not exist yet (the rule makes it) named through a symlinked parent and through the real one, on one command line, in two commands and in two concurrent invocations: one execution, one Files row. '
         'Layer C: the same normpath / abs_path / RedoPath workloads (with the reference check inside) interpreted by Miri; in the thorough tier also the crate\'s own unit tests of helpers and state (normpath, relpath, realdirpath vectors) interpreted by Miri.')
 ASSUME = ['lexical cleaning is compared with the kernel only on symlink-free trees', 'relpath bases are physical directories (as at redo\'s call sites)',
           'paths ending in . or .. or / are not targets']
@@ -663,6 +728,9 @@ def main(tier):
     for pr in (rnd.sample(pairs, 10) if quick else pairs):
         for depth in (0, 1):
             cmd_items.append(('moved', pr, rnd.choice([1, 3]), depth, rnd.randrange(1000)))
+    for pr in (rnd.sample(pairs, 8) if quick else pairs):
+        for mode in ('one-line', 'two-commands', 'concurrent'):
+            cmd_items.append(('late', pr, mode, rnd.choice([1, 3]), rnd.randrange(1000)))
     rnd.shuffle(cmd_items)
     items += cmd_items
     common.ensure_native()
